@@ -682,4 +682,120 @@ theorem seq_nonstrict_le_reference (I : SeqInst) (cap init : ℚ) (hL : 3 ≤ I.
       rw [hR]
       simp [List.getD_eq_getElem?_getD, hv, hc00]
 
+/-! ## non-vacuity -/
+
+/-! ### path-based: the pool `C04.nv_P` (three routes accepted by `add_route` on the reachable graph, capacity 3) -/
+
+theorem nv_step (P : PathInst) (h : C15.Inv P.g ∧ C06.PoolInv P) (r : List Stop) :
+    C15.Inv (P.addRoute r).1.g ∧ C06.PoolInv (P.addRoute r).1 :=
+  ⟨by rw [(C06.addRoute_inv P h.1 h.2 r).2.1]; exact h.1, (C06.addRoute_inv P h.1 h.2 r).1⟩
+
+theorem nv_P_inv : C15.Inv C04.nv_P.g ∧ C06.PoolInv C04.nv_P :=
+  nv_step _ (nv_step _ (nv_step _ (nv_step _ ⟨C15.nv_inv_of_invB _ (by decide +kernel), C06.poolInv_init _⟩ _) _) _) _
+
+theorem nv_P_valid : PoolValid C04.nv_P 3 3 := by unfold PoolValid C06.ValidRoute; decide +kernel
+
+/-- all hypotheses of `path_feasible_iff_partition` hold for `x = [0, 1, 1]`; conclusions on the instance -/
+theorem nv_P_part : IsPartition C04.nv_P.g 3 3 (selRoutes C04.nv_P (vecOf [0, 1, 1])) :=
+  (path_feasible_iff_partition C04.nv_P 3 3 nv_P_inv.2 nv_P_valid _ C04.nv_path_bin).1.1 (by decide +kernel)
+
+example : selRoutes C04.nv_P (vecOf [0, 1, 1]) = [[0, 1, 0], [0, 2, 0]] ∧
+    partitionCost C04.nv_P.g 3 3 [[0, 1, 0], [0, 2, 0]] = 7 ∧ C04.nv_P.data.objective (vecOf [0, 1, 1]) = 7 := by
+  decide +kernel
+
+/-- the valid routes of a three-node graph without the arcs `(0,0)` and `(2,1)`, for any capacity data -/
+theorem nv_valid_enum (g : Graph) (hg : C15.Inv g) (h3 : g.nodes.length = 3) (h00 : g.arc? 0 0 = none)
+    (h21 : g.arc? 2 1 = none) (cap init : ℚ) (r : List ℕ) (hr : C06.ValidRoute g cap init r) :
+    r = [0, 1, 0] ∨ r = [0, 2, 0] ∨ r = [0, 1, 2, 0] := by
+  obtain ⟨c, hc⟩ := Option.isSome_iff_exists.1 hr.2.2.2.2
+  have hb := (C06.follow_bound g hg cap r.tail 0 0 init 0 c hc).1
+  rw [h3] at hb
+  obtain ⟨hlen, hhead, hlast, hnd, hfol⟩ := hr
+  match r, hlen, hhead, hlast, hnd, hfol, hb with
+  | [a, b], _, hhead, hlast, _, hfol, _ =>
+    obtain rfl : a = 0 := by simpa using hhead
+    obtain rfl : b = 0 := by simpa using hlast
+    rw [List.tail_cons, C06.follow, h00] at hfol
+    simp at hfol
+  | [a, b, c], _, hhead, hlast, hnd, _, hb =>
+    obtain rfl : a = 0 := by simpa using hhead
+    obtain rfl : c = 0 := by simpa using hlast
+    have : b < 3 := hb b (by simp)
+    have : b ≠ 0 := by intro h; subst h; simp at hnd
+    have : b = 1 ∨ b = 2 := by omega
+    rcases this with rfl | rfl <;> simp
+  | [a, b, c, d], _, hhead, hlast, hnd, hfol, hb =>
+    obtain rfl : a = 0 := by simpa using hhead
+    obtain rfl : d = 0 := by simpa using hlast
+    have h1 : b < 3 := hb b (by simp)
+    have h2 : c < 3 := hb c (by simp)
+    simp [List.dropLast] at hnd
+    have : (b = 1 ∧ c = 2) ∨ (b = 2 ∧ c = 1) := by omega
+    rcases this with ⟨rfl, rfl⟩ | ⟨rfl, rfl⟩
+    · simp
+    · rw [List.tail_cons, C06.follow_cons] at hfol
+      cases hca : checkArc g cap 0 init 0 2 with
+      | none => simp [hca] at hfol
+      | some p => simp only [hca] at hfol; rw [C06.follow, h21] at hfol; simp at hfol
+  | a :: b :: c :: d :: e :: rest, _, hhead, _, hnd, _, hb =>
+    obtain rfl : a = 0 := by simpa using hhead
+    have h1 : b < 3 := hb b (by simp)
+    have h2 : c < 3 := hb c (by simp)
+    have h3 : d < 3 := hb d (by simp)
+    simp [List.dropLast] at hnd
+    omega
+
+/-- the hypothesis `hall` of `path_all_routes_eq_reference`: the pool holds ALL valid routes of its graph
+    (for arbitrary graphs: `exhaustiveOffers_complete` in C08c) -/
+theorem nv_P_all : ∀ r, C06.ValidRoute C04.nv_P.g 3 3 r → r ∈ C04.nv_P.routes := by
+  intro r hr
+  rcases nv_valid_enum _ nv_P_inv.1 (by decide +kernel) (by decide +kernel) (by decide +kernel) 3 3 r hr
+    with rfl | rfl | rfl <;> decide +kernel
+
+/-- hence `path_all_routes_eq_reference` applies: the cost 7 of the two-route partition is attained by a vector -/
+example : ∃ x, IsBin C04.nv_P.data.n x ∧ C04.nv_P.data.feasibleB x = true ∧ C04.nv_P.data.objective x = 7 :=
+  (path_all_routes_eq_reference C04.nv_P 3 3 nv_P_inv.2 nv_P_valid nv_P_all 7).2 ⟨_, nv_P_part, by decide +kernel⟩
+
+/-! ### arc-based: `C05.nv_I` (same graph, grid `[0, 2, 6, 8]` = the service times of `d-a-b-d`) -/
+
+theorem nv_valid : C06.ValidRoute C05.nv_I.g 3 3 [0, 1, 2, 0] := by unfold C06.ValidRoute; decide +kernel
+
+/-- all hypotheses of `arc_route_representable` hold; its conclusion, and the moves by evaluation -/
+theorem nv_repr :
+    C05.IsDepotRoute (movesOfRoute [0, 1, 2, 0] (serviceTimes C05.nv_I.g 0 0 [1, 2, 0])) ∧
+    (∀ u ∈ movesOfRoute [0, 1, 2, 0] (serviceTimes C05.nv_I.g 0 0 [1, 2, 0]), C05.nv_I.admissible u = true) ∧
+    ((movesOfRoute [0, 1, 2, 0] (serviceTimes C05.nv_I.g 0 0 [1, 2, 0])).map fun u =>
+      C05.arcCost C05.nv_I.g u.1 u.2.2.1).sum = routeCost C05.nv_I.g 3 3 [0, 1, 2, 0] :=
+  arc_route_representable C05.nv_I C05.nv_wf 3 3 [0, 1, 2, 0] nv_valid (by decide +kernel)
+  (by decide +kernel) (by decide +kernel)
+
+example : serviceTimes C05.nv_I.g 0 0 [1, 2, 0] = [0, 2, 6, 8] ∧
+    movesOfRoute [0, 1, 2, 0] (serviceTimes C05.nv_I.g 0 0 [1, 2, 0]) = [(0, 0, 1, 2), (1, 2, 2, 6), (2, 6, 0, 8)] ∧
+    routeCost C05.nv_I.g 3 3 [0, 1, 2, 0] = 4 := by decide +kernel
+
+/-- all hypotheses of `arc_route_time_feasible` / `arc_route_no_window_missed` hold for that depot route
+    (`k = 1`: earliest arrival at `b` is 6, inside `[6, 9]`) -/
+example : leE ((serviceTimes C05.nv_I.g 0 0
+      ((movesOfRoute [0, 1, 2, 0] (serviceTimes C05.nv_I.g 0 0 [1, 2, 0])).map fun u => u.2.2.1)).getD 2 0)
+    (C05.nv_I.g.hi 2) = true :=
+  arc_route_no_window_missed C05.nv_I C05.nv_wf _ nv_repr.1 nv_repr.2.1 (fun _ => by decide +kernel +revert) 1
+    (by decide +kernel)
+
+/-! ### sequence-based: `C07.nv_S` (constructor on the same graph, two vehicles, four positions) -/
+
+theorem nv_seq_part : IsPartition C07.nv_S.g 3 3 [[0, 1, 0], [0, 2, 0]] := by
+  refine ⟨by unfold C06.ValidRoute; decide +kernel, by decide, fun k h1 h2 => ?_⟩
+  have h3 : C07.nv_S.g.nodes.length = 3 := by decide +kernel
+  have : k = 1 ∨ k = 2 := by omega
+  rcases this with rfl | rfl <;> decide +kernel
+
+/-- all hypotheses of `seq_nonstrict_le_reference` hold for the two-route partition (cost 7) -/
+example : ∃ w, C07.Walk C07.nv_S w ∧
+    (sumTo C07.nv_S.V fun v => sumTo (C07.nv_S.L - 1) fun p =>
+      C07.arcCost C07.nv_S.g (w v p) (w v (p + 1)) + C07.nv_S.vc v) = 7 := by
+  have h := seq_nonstrict_le_reference C07.nv_S 3 3 (by decide) C07.nv_S_inv (by decide +kernel) (by decide +kernel)
+    (fun v => by match v with | 0 => rfl | 1 => rfl | _ + 2 => rfl)
+    [[0, 1, 0], [0, 2, 0]] nv_seq_part (by decide) (by decide)
+  rwa [show partitionCost C07.nv_S.g 3 3 [[0, 1, 0], [0, 2, 0]] = 7 by decide +kernel] at h
+
 end Vrp.C08
